@@ -95,13 +95,15 @@ func TestC12(t *testing.T) {
 			for rk := 0; rk < 3; rk++ {
 				for ek := 0; ek < 3; ek++ {
 					for _, dl := range []bool{false, true} {
-						u := &UnaryCase{Method: m, NOpts: nopts, ReqKind: rk, ErrKind: ek, HasDl: dl}
-						if f := RunUnary(u); f != "" {
-							u.Failure = f
-							hx.WriteReplay("C12", u)
-							t.Fatalf("unary: %s", f)
+						for nested := 0; nested < 3; nested++ {
+							u := &UnaryCase{Method: m, NOpts: nopts, ReqKind: rk, ErrKind: ek, HasDl: dl, Nested: nested}
+							if f := RunUnary(u); f != "" {
+								u.Failure = f
+								hx.WriteReplay("C12", u)
+								t.Fatalf("unary: %s", f)
+							}
+							n++
 						}
-						n++
 					}
 				}
 			}
